@@ -114,6 +114,15 @@ func Check(v any) error {
 			continue
 		}
 
+		// The value of an unexported field can not be read or set.
+		if sf.PkgPath != "" {
+			return fmt.Errorf(
+				"jsonapi: field %q of type %q is not exported",
+				sf.Name,
+				resType,
+			)
+		}
+
 		// The name of a field is its json tag.
 		if sf.Tag.Get("json") == "" {
 			return fmt.Errorf(
